@@ -27,11 +27,26 @@
 // clean under all categories x versions; the reversed pairs (the big image with MORE files on the
 // against side: files deleted) and one pair with a planted breaking edit must respect
 // FILE >= PACKAGE >= WIRE_JSON >= WIRE; every pair is a `pair` line for the Lean model.
+//
+// Section G (catalogue): the hierarchy clause on EVERY pair the C03 edit catalogue produces.  The
+// stratified plan of the C03 harness (sg.MakePlan over the same bases from the same seed: every
+// breaking-edit operator x every kind of element it applies to - field shapes x types incl.
+// group / delimited / inherited-delimited, map, oneof member, extension; message depth classes;
+// enum position x closedness x number of names - x every file syntax, alone or mixed with additive
+// edits) is planted pair by pair; each pair is evaluated under FILE, PACKAGE, WIRE_JSON, WIRE x
+// v1beta1 / v1 / v2.  Oracle per version and adjacent categories (stricter, laxer): (1) the
+// property's clause - stricter clean => laxer clean; (2) per SUBJECT - every annotation of the
+// laxer category is about an element (file + path of the innermost message / field / enum / enum
+// value / service / RPC / oneof / extension, whatever the rule id and the attribute inside it)
+// that the stricter category reports too.  A failure names the edit, its site and the
+// annotations of all four categories.
 package main
 
 import (
 	"fmt"
 	"sort"
+	"strconv"
+	"strings"
 
 	"github.com/bufbuild/buf/private/pkg/thread"
 	"github.com/bufbuild/verifharness/internal/hx"
@@ -68,8 +83,11 @@ func evalClean(run *hx.Run, job int, res *sg.Result, rn *sg.Runner, cur, prev *s
 	for _, as := range pe.Sets {
 		all = append(all, as...)
 	}
-	// one more run per version with all four categories at once and no except
+	// one more run per version with all four categories at once and no except (every other pair)
 	for _, v := range sg.Versions {
+		if !r.Bool() {
+			break
+		}
 		as, err := rn.Run(v.V, sg.Categories, nil, cur, prev, pe.Idx)
 		if err != nil {
 			res.Fail(hx.OracleFailure{Class: sg.ErrClass("C04", err), What: v.Name + "/ALL: " + err.Error(), Input: input(cur, prev, note), Replay: replay(run, job)})
@@ -230,23 +248,15 @@ func hierarchyJob(run *hx.Run, root *hx.Rand, i int, rn *sg.Runner) *sg.Result {
 	}
 	fired := map[string]bool{}
 	for _, v := range sg.Versions {
-		for ci, cat := range strictOrder {
+		for _, cat := range strictOrder {
 			as := pe.Sets[v.Name+"/"+cat]
 			res.Count("anns:" + cat + ":" + sg.AnnBucket(len(as)))
 			for _, a := range as {
 				fired[a.Rule] = true
 			}
-			if ci == 0 {
-				continue
-			}
-			strict := strictOrder[ci-1]
-			if len(pe.Sets[v.Name+"/"+strict]) == 0 && len(as) > 0 {
-				res.Fail(hx.OracleFailure{Class: "C04-hierarchy-" + v.Name + "-" + strict + "-" + cat,
-					What:  fmt.Sprintf("%s clean but %s reports %v", strict, cat, sg.AnnStrings(as)),
-					Input: input(cc, prev, note), Replay: replay(run, i)})
-			}
 		}
 	}
+	checkHierarchy(run, i, res, pe, cc, prev, note)
 	if r.Chance(1, 5) {
 		v2 := sg.RuleCats["v2"]
 		var pool, firedIDs []string
@@ -289,16 +299,149 @@ func hierarchyJob(run *hx.Run, root *hx.Rand, i int, rn *sg.Runner) *sg.Result {
 	return res
 }
 
-// checkHierarchy: per version, a stricter category that is clean implies the next laxer one is.
+// subjectOf is the rule-independent SUBJECT of an annotation: its file and the source path cut
+// back to the innermost schema element (message / nested message / field / extension / oneof /
+// enum / enum value / service / RPC).  What follows inside the element (name, type, type name,
+// label, json_name, default, options ...) and file-level statements (package, syntax, options)
+// are attributes: `4.0.2.1.5` (type of field 1 of message 0) and `4.0.2.1.6` (its type name) are
+// about the same subject `4.0.2.1`; `2` (package statement) and no path at all are about the file.
+func subjectOf(a sg.Ann) string {
+	if a.File == "" {
+		return "" // no file: a deleted file / package
+	}
+	var comps []int
+	if a.Path != "" && a.Path != "-" {
+		for _, c := range strings.Split(a.Path, ".") {
+			n, err := strconv.Atoi(c)
+			if err != nil {
+				return a.File + ":"
+			}
+			comps = append(comps, n)
+		}
+	}
+	// child tables: FileDescriptorProto, DescriptorProto, EnumDescriptorProto, ServiceDescriptorProto
+	const (
+		inFile = iota
+		inMsg
+		inEnum
+		inSvc
+		leaf
+	)
+	state, keep := inFile, 0
+	for i := 0; i+1 < len(comps) && state != leaf; i += 2 {
+		next := -1
+		switch state {
+		case inFile:
+			switch comps[i] {
+			case 4:
+				next = inMsg
+			case 5:
+				next = inEnum
+			case 6:
+				next = inSvc
+			case 7:
+				next = leaf
+			}
+		case inMsg:
+			switch comps[i] {
+			case 3:
+				next = inMsg
+			case 4:
+				next = inEnum
+			case 2, 6, 8:
+				next = leaf
+			}
+		case inEnum, inSvc:
+			if comps[i] == 2 {
+				next = leaf
+			}
+		}
+		if next < 0 {
+			break
+		}
+		state, keep = next, i+2
+	}
+	parts := make([]string, keep)
+	for i := 0; i < keep; i++ {
+		parts[i] = strconv.Itoa(comps[i])
+	}
+	return a.File + ":" + strings.Join(parts, ".")
+}
+
+// covered: the stricter category reports about the subject itself or about an element (or the
+// file) that CONTAINS it: a changed package statement is about everything in the file, a message
+// annotation about everything inside the message.
+func covered(have map[string]bool, subject string) bool {
+	if have[subject] {
+		return true
+	}
+	file, path, ok := strings.Cut(subject, ":")
+	if !ok {
+		return false
+	}
+	comps := strings.Split(path, ".")
+	for n := len(comps) - 2; n >= 0; n -= 2 {
+		if have[file+":"+strings.Join(comps[:n], ".")] {
+			return true
+		}
+	}
+	return false
+}
+
+func catSummary(pe *sg.PairEval, ver string) string {
+	var sb strings.Builder
+	for _, cat := range strictOrder {
+		fmt.Fprintf(&sb, "%s=%v ", cat, dedupe(sg.AnnStrings(pe.Sets[ver+"/"+cat])))
+	}
+	return strings.TrimSpace(sb.String())
+}
+
+// checkHierarchy: per version and adjacent categories (stricter, laxer):
+//  1. a stricter category that is clean implies the laxer one is (class C04-hierarchy-<v>-<S>-<L>);
+//  2. every annotation of the laxer category is about a subject the stricter category reports
+//     too - the same element or one that contains it (class C04-hierarchy-subject-<v>-<S>-<L>).  An annotation without file (deleted file /
+//     package) is comparable with everything of the other side that has no file either or - a
+//     file-level fact - sits at a file as a whole.
 func checkHierarchy(run *hx.Run, job int, res *sg.Result, pe *sg.PairEval, cur, prev *sg.Compiled, note string) {
 	for _, v := range sg.Versions {
 		for ci := 1; ci < len(strictOrder); ci++ {
 			strict, cat := strictOrder[ci-1], strictOrder[ci]
-			as := pe.Sets[v.Name+"/"+cat]
-			if len(pe.Sets[v.Name+"/"+strict]) == 0 && len(as) > 0 {
+			as, ran := pe.Sets[v.Name+"/"+cat]
+			ss := pe.Sets[v.Name+"/"+strict]
+			if !ran {
+				continue // this version was not evaluated for the pair
+			}
+			res.Count("hierarchy:checked:" + v.Name)
+			if len(ss) == 0 && len(as) > 0 {
+				in := input(cur, prev, note)
+				in["categories"] = catSummary(pe, v.Name)
 				res.Fail(hx.OracleFailure{Class: "C04-hierarchy-" + v.Name + "-" + strict + "-" + cat,
-					What:  fmt.Sprintf("%s clean but %s reports %v", strict, cat, sg.AnnStrings(as)),
-					Input: input(cur, prev, note), Replay: replay(run, job)})
+					What:  fmt.Sprintf("%s: %s clean but %s reports %v", note, strict, cat, sg.AnnStrings(as)),
+					Input: in, Replay: replay(run, job)})
+				continue
+			}
+			have := map[string]bool{}
+			fileLevel := false
+			for _, b := range ss {
+				sb := subjectOf(b)
+				have[sb] = true
+				if sb == "" || strings.HasSuffix(sb, ":") {
+					fileLevel = true
+				}
+			}
+			for _, a := range as {
+				sa := subjectOf(a)
+				if covered(have, sa) || (sa == "" && fileLevel) {
+					res.Count("hierarchy:subject-ok")
+					continue
+				}
+				in := input(cur, prev, note)
+				in["categories"] = catSummary(pe, v.Name)
+				res.Fail(hx.OracleFailure{Class: "C04-hierarchy-subject-" + v.Name + "-" + strict + "-" + cat,
+					What: fmt.Sprintf("%s: %s reports %v but %s reports nothing about that element (subject %q); %s reports %v",
+						note, cat, sg.AnnStrings([]sg.Ann{a}), strict, sa, strict, dedupe(sg.AnnStrings(ss))),
+					Input: in, Replay: replay(run, job)})
+				break
 			}
 		}
 	}
@@ -665,6 +808,112 @@ func spellingJob(run *hx.Run, root *hx.Rand, i int, layout int, rn *sg.Runner) *
 	return res
 }
 
+// catalogueT is the C03 plan (section G): the same bases, the same plan and the same per-entry
+// random streams as the C03 harness derives from this seed, cut into jobs of consecutive entries
+// of one base.
+type catalogueT struct {
+	root  *hx.Rand
+	bases []sg.Base
+	plan  []sg.PlanEntry
+	index []int    // index of plan[i] in the full C03 plan (its `c03 --only` address and random stream)
+	jobs  [][2]int // [lo, hi) plan entries
+}
+
+func makeCatalogue(run *hx.Run) *catalogueT {
+	c := &catalogueT{root: hx.NewRand(run.Seed)}
+	c.bases = make([]sg.Base, run.N(25, 40))
+	for bi := range c.bases {
+		c.bases[bi] = sg.GenBase(c.root, bi)
+	}
+	// the quick C03 plan in both tiers: one plant per (operator, kind) and (operator, syntax)
+	// stratum (thorough: plus the top-up to 10 plants per operator, over 40 bases and two seeds)
+	full, _ := sg.MakePlan(false, c.root, c.bases)
+	for pi, e := range full {
+		// quick: the strata only (every operator x kind, every operator x syntax); the random
+		// top-up plants of the C03 plan are left to the thorough tier
+		if run.Thorough() || e.Why != "top-up" {
+			c.plan = append(c.plan, e)
+			c.index = append(c.index, pi)
+		}
+	}
+	const chunk = 12
+	for i := 0; i < len(c.plan); {
+		j := i
+		for j < len(c.plan) && j-i < chunk && c.plan[j].Bi == c.plan[i].Bi {
+			j++
+		}
+		c.jobs = append(c.jobs, [2]int{i, j})
+		i = j
+	}
+	return c
+}
+
+// catalogueJob: every plan entry of the job is planted and the pair goes through the 12 category
+// runs; oracle = checkHierarchy (clean-implies-clean and per subject).  The pairs are the ones the
+// C03 harness sends to the Lean model; here every 6th (thorough: 12th) also becomes a `pair` line.
+func catalogueJob(run *hx.Run, cat *catalogueT, i int, k int, rn *sg.Runner) *sg.Result {
+	res := sg.NewResult()
+	jb := cat.jobs[k]
+	base := cat.bases[cat.plan[jb[0]].Bi].St
+	cache := sg.NewCache()
+	prev, err := cache.Compile(base.Sources())
+	if err != nil {
+		res.Count("catalogue:base-compile-error")
+		return res
+	}
+	for pi := jb[0]; pi < jb[1]; pi++ {
+		e := cat.plan[pi]
+		op := sg.BreakingOps[e.Oi]
+		rv := sg.PlanEntryRand(cat.root, cat.index[pi])
+		p, ok := sg.PlantEntry(cat.bases, e, rv, res)
+		if !ok {
+			res.Count("catalogue:not-applicable:" + op.Name)
+			continue
+		}
+		cur, err := cache.Compile(p.Cur.Sources())
+		if err != nil {
+			res.Count("catalogue:compile-error:" + op.Name)
+			continue
+		}
+		note := fmt.Sprintf("catalogue entry %d (c03 plan entry %d): edit %s(%s) at site %s", pi, cat.index[pi], p.Variant, strings.TrimSpace(p.Note), p.Site.String())
+		// every 6th pair (thorough: every 12th) becomes a `pair` line: 12 real single-category runs;
+		// the others: real single-category runs under ONE version (rotating) and one real
+		// all-categories run, split by the spec's category lists, under each of the other two
+		var pe *sg.PairEval
+		line := pi%run.N(6, 12) == 0
+		if line {
+			pe = sg.EvalPair(rn, cur, prev, false)
+			res.Count("catalogue:runs:12-real")
+		} else {
+			real := sg.Versions[pi%len(sg.Versions)].Name
+			pe, _ = sg.EvalPairOneReal(rn, cur, prev, real)
+			res.Count("catalogue:runs:4-real-" + real + "+2-split")
+		}
+		if pe.Err != nil {
+			res.Fail(hx.OracleFailure{Class: sg.ErrClass("C04", pe.Err), What: note + ": " + pe.ErrAt + ": " + pe.Err.Error(), Input: input(cur, prev, note), Replay: replay(run, i)})
+			continue
+		}
+		res.Evals++
+		res.Count("pairs:catalogue")
+		res.Count("catalogue:op:" + op.Name)
+		kindOnly, syn := sg.SplitKind(e.Kind)
+		res.Sets["catalogue_operator_kind_evaluated"] = append(res.Sets["catalogue_operator_kind_evaluated"], op.Name+"|"+kindOnly, op.Name+"|@"+syn)
+		if pe.Total == 0 {
+			res.Count("catalogue:clean-pair:" + op.Name)
+		}
+		for _, c := range strictOrder {
+			if len(pe.Sets["v2/"+c]) > 0 {
+				res.Count("catalogue:v2-reports:" + c)
+			}
+		}
+		if line {
+			res.Cases = append(res.Cases, sg.Case{In: pe.In, Out: pe.Out, Nontrivial: true, Note: note, Cur: cur.Sources, Prev: prev.Sources})
+		}
+		checkHierarchy(run, i, res, pe, cur, prev, note)
+	}
+	return res
+}
+
 func probeJob(run *hx.Run, root *hx.Rand, i int, rn *sg.Runner) *sg.Result {
 	res := sg.NewResult()
 	r := root.Fork(uint64(i))
@@ -721,13 +970,16 @@ func main() {
 	// probe once, before the parallel jobs: which model dispatch matches this tree
 	run.Set("tree_has_package_last_element_fix", sg.TreeHasPackageFix())
 	root := hx.NewRand(run.Seed)
-	nChains := run.N(130, 880)
-	nHier := run.N(230, 1500)
+	nChains := run.N(115, 840)
+	nHier := run.N(110, 1500) // quick: section G covers the single planted edits
 	nProbe := run.N(40, 300)
 	nBig := run.N(5, 30) // per parallelism value; thorough in.txt stays < 200 MB
-	nImp := run.N(50, 120)
+	nImp := run.N(44, 120)
 	nSpell := sg.NumMatrixLayouts
-	nSmall := nChains + nHier + nProbe + nImp + nSpell
+	cat := makeCatalogue(run)
+	nCat := len(cat.jobs)
+	run.Set("catalogue_plan_entries", len(cat.plan))
+	nSmall := nChains + nHier + nProbe + nImp + nSpell + nCat
 	saved := thread.Parallelism()
 	phases := []sg.Phase{
 		{N: nSmall},
@@ -744,8 +996,10 @@ func main() {
 			return probeJob(run, root.Fork(3), i, rn)
 		case i < nChains+nHier+nProbe+nImp:
 			return importJob(run, root.Fork(5), i, rn)
-		case i < nSmall:
+		case i < nChains+nHier+nProbe+nImp+nSpell:
 			return spellingJob(run, root.Fork(6), i, i-(nChains+nHier+nProbe+nImp), rn)
+		case i < nSmall:
+			return catalogueJob(run, cat, i, i-(nChains+nHier+nProbe+nImp+nSpell), rn)
 		case i < nSmall+nBig:
 			return bigJob(run, root.Fork(4), i, 2, rn)
 		}
